@@ -73,7 +73,8 @@ def parse_summary(content):
 
 
 def categorize_filenames(mapping):
-    filenames = list(mapping.values())
+    # the roles are given by the numbered keys (...ProductFileName01, 02, ...), not by text order
+    filenames = [mapping[key] for key in sorted(mapping)]
     volume_directory, leader, *imagery, trailer = filenames
     return {
         "volume_directory": volume_directory,
